@@ -139,7 +139,62 @@ def c20(run):
             "object compared before/after; header character lists vary with the seed")
 
 
+WALK_CFG = """CONSTANT Dev <- {dev}
+CONSTANT Trees <- {trees}
+CONSTANT PatternSets <- {pats}
+CONSTANT OutKinds <- {outs}
+CONSTANT OutSub <- MCOutSub
+CONSTANT RecChoices <- BothB
+CONSTANT AutoChoices <- BothB
+CONSTANT SepChoices <- {seps}
+CONSTANT MaxWalkDepth = 6
+INIT Init
+NEXT Next
+VIEW View
+{invs}
+"""
+WALK_INVS = {
+    "C13": ["C13_NoDivergence", "C13_PagesAreProcessedFiles", "C13_OnePagePerFile", "C13_OneIndexPerProcessedDir",
+            "C13_NoIndexOnStdout"],
+    "C14": ["C14_ToctreeExact", "C14_NoDangling", "C14_Reachable", "C14_IndexTitle"],
+    "C15": ["C15_ProcessedIffNotMatched", "C15_NotDescended", "C15_ExcludedNotScanned", "C15_WholeInputExcluded"],
+}
+
+
+def walk_cfg(pid, dev, trees, pats, outs="OutAll", seps="SepColon", emit=True, check=True):
+    invs = ["INVARIANT " + i for i in (WALK_INVS[pid] if check else [])] + (["INVARIANT Emit"] if emit else [])
+    return WALK_CFG.format(dev=dev, trees=trees, pats=pats, outs=outs, seps=seps, invs="\n".join(invs))
+
+
+def walk_property(run):
+    import walkh
+    pid = run.pid
+    q = run.tier == "quick"
+    trees, pats = ("SmallTrees", "SmallPatternSets") if q else ("MCTrees", "MCPatternSets")
+    outs = "OutFile" if pid == "C14" else "OutAll"
+    seps = "Seps" if pid == "C14" else "SepColon"
+    # the design (Dev = {}) satisfies the invariants
+    res = lib.run_tlc("MC_Walk", walk_cfg(pid, "NoDev", trees, pats, outs, seps, emit=not current_dev("MC_Walk")))
+    run.add_tlc("MC_Walk(%s,%s,Dev={})" % (trees, pats), res)
+    if current_dev("MC_Walk"):
+        res = lib.run_tlc("MC_Walk", walk_cfg(pid, "CurrentDev", trees, pats, outs, seps, check=False))
+        run.add_tlc("MC_Walk(%s,%s,Dev=Current)" % (trees, pats), res)
+    walkh.replay(run, pid, res.lines.get("BEH", []), run.seed, limit=6000 if q else 60000)
+    run.assumptions += ["pathspec (gitwildmatch) is a trusted library; the specification's reading of it (Walk.Match) is "
+                        "checked against observed match_file results by the C15 check",
+                        "str.endswith/lower/split/sorted results on names are inputs of the specification",
+                        "symlinks, special files and follow_symlinks are out of scope"]
+    return ("TLC explores cminx.document's walk over every tree of the menu x pattern set x recursive x auto-exclusion x "
+            "output location (none/outside/inside at top/inside a sub-directory) x every directory-listing permutation, "
+            "checks the %s invariants on the specification, and each terminal behaviour is materialised in a sandbox and "
+            "run through the real cminx.document with the listing orders imposed through os.walk; compared: files under "
+            "the output directory / documented files / toctrees and titles of every index.rst against the ideal computed "
+            "from the initial tree" % pid)
+
+
 CHECKS = {p: agg_property for p in AGG}
+for _p in ("C13", "C14", "C15"):
+    CHECKS[_p] = walk_property
 CHECKS["C20"] = c20
 
 
